@@ -231,8 +231,20 @@ asn1f_fix_module__phase_1(arg_t *arg) {
 		assert(arg->expr == expr);
 	}
 
+	return rvalue;
+}
+
+static int
+asn1f_fix_module__phase_2(arg_t *arg) {
+	asn1p_expr_t *expr;
+	int rvalue = 0;
+	int ret;
+
 	/*
 	 * ... Check for tags distinctness.
+	 * This is done after every module went through the first phase:
+	 * the tags of imported types (automatic tagging of their module)
+	 * must be final, whatever the order of the modules is.
 	 */
 	TQ_FOR(expr, &(arg->mod->members), next) {
 		arg->expr = expr;
@@ -242,15 +254,6 @@ asn1f_fix_module__phase_1(arg_t *arg) {
 
 		assert(arg->expr == expr);
 	}
-
-	return rvalue;
-}
-
-static int
-asn1f_fix_module__phase_2(arg_t *arg) {
-	asn1p_expr_t *expr;
-	int rvalue = 0;
-	int ret;
 
 	TQ_FOR(expr, &(arg->mod->members), next) {
 
